@@ -2,7 +2,10 @@ module verif
 
 go 1.23
 
-require github.com/ctessum/geom v0.0.0
+require (
+	github.com/ctessum/geom v0.0.0
+	gonum.org/v1/gonum v0.9.3
+)
 
 require (
 	github.com/ctessum/polyclip-go v1.1.0 // indirect
@@ -13,7 +16,6 @@ require (
 	github.com/paulmach/osm v0.1.1 // indirect
 	golang.org/x/exp v0.0.0-20191002040644-a1355ae1e2c3 // indirect
 	golang.org/x/sync v0.0.0-20200625203802-6e8e738ad208 // indirect
-	gonum.org/v1/gonum v0.9.3 // indirect
 )
 
 replace github.com/ctessum/geom => /repo
